@@ -45,6 +45,8 @@ type Lowerer struct {
 	splits map[string][2]string
 	loOf   map[string]splitRec
 	atomIv map[string][2]*big.Int
+	linOf  map[string]*lin // exact linear form of an emitted expression
+	modOf  map[string]*lin // atom ≡ form (mod 2^64), one level
 	wraps  int
 	Err    error
 	// profile knobs
@@ -52,13 +54,14 @@ type Lowerer struct {
 	NoDefine   bool
 	LoSubst    bool
 	CoefReduce bool
+	NoModForms bool
 }
 
 const noCtx = 1 << 30
 
 func NewLowerer(be Backend, ts *TermStore) *Lowerer {
 	return &Lowerer{ts: ts, be: be, declSet: map[string]bool{}, memo: map[*Term]string{}, ivl: map[*Term][2]*big.Int{}, minCtx: noCtx,
-		facts: map[[2]uint32]bool{}, varLo: map[*Term]*big.Int{}, varHi: map[*Term]*big.Int{}, splits: map[string][2]string{}, loOf: map[string]splitRec{}, atomIv: map[string][2]*big.Int{}}
+		facts: map[[2]uint32]bool{}, varLo: map[*Term]*big.Int{}, varHi: map[*Term]*big.Int{}, splits: map[string][2]string{}, loOf: map[string]splitRec{}, atomIv: map[string][2]*big.Int{}, linOf: map[string]*lin{}, modOf: map[string]*lin{}}
 }
 
 func (l *Lowerer) decl(s string) {
@@ -212,6 +215,12 @@ func (l *Lowerer) T(t *Term) string {
 			l.n++
 			name := fmt.Sprintf("d!%d", l.n)
 			l.decls = append(l.decls, fmt.Sprintf("(define-fun %s () %s %s)", name, l.sortOf(t), s))
+			if lf, ok := l.linOf[s]; ok {
+				l.linOf[name] = lf
+			}
+			if iv, ok := l.atomIv[s]; ok {
+				l.atomIv[name] = iv
+			}
 			s = name
 		}
 		l.memo[t] = s
@@ -724,23 +733,29 @@ func (l *Lowerer) wrapLin(a *lin, lo, hi *big.Int, w uint8) (string, *big.Int, *
 	}
 	if l.LoSubst {
 		if b, blo, bhi, ok := l.substLo(a, lo, hi, w); ok {
-			return l.wrap(b.render(), blo, bhi, w)
+			return l.wrap(b.render(), blo, bhi, w, a)
 		}
 	}
 	if l.CoefReduce {
 		if b, blo, bhi, ok := l.reduceCoefs(a, w); ok {
-			return l.wrap(b.render(), blo, bhi, w)
+			return l.wrap(b.render(), blo, bhi, w, a)
 		}
 	}
-	return l.wrap(a.render(), lo, hi, w)
+	return l.wrap(a.render(), lo, hi, w, a)
 }
 
 // wrap reduces an Int expression with interval [lo,hi] into [0,2^w).
-func (l *Lowerer) wrap(expr string, lo, hi *big.Int, w uint8) (string, *big.Int, *big.Int) {
+func (l *Lowerer) wrap(expr string, lo, hi *big.Int, w uint8, lf *lin) (string, *big.Int, *big.Int) {
 	m := pow2(uint(w))
 	mx := new(big.Int).Sub(m, bigOne)
 	if lo.Sign() >= 0 && hi.Cmp(mx) <= 0 {
 		return expr, lo, hi
+	}
+	if lf != nil && w == 64 && !l.NoModForms {
+		if a, ok := l.simpleMod(lf, w); ok {
+			iv := l.atomIv[a]
+			return a, iv[0], iv[1]
+		}
 	}
 	l.wraps++
 	klo := new(big.Int).Div(lo, m) // floor
@@ -755,7 +770,71 @@ func (l *Lowerer) wrap(expr string, lo, hi *big.Int, w uint8) (string, *big.Int,
 	l.asserts = append(l.asserts, fmt.Sprintf("(= %s (- %s (* %s %s)))", r, expr, k, m))
 	l.asserts = append(l.asserts, fmt.Sprintf("(and (<= 0 %s) (< %s %s))", r, r, m))
 	l.asserts = append(l.asserts, fmt.Sprintf("(and (<= %s %s) (<= %s %s))", sInt(klo), k, k, sInt(khi)))
+	l.atomIv[r] = [2]*big.Int{bigZero, mx}
+	if lf != nil && w == 64 {
+		l.modOf[r] = lf
+	}
 	return r, bigZero, mx
+}
+
+// simpleMod decides whether a linear form is congruent modulo 2^w to a single in-range atom (then the wrapped
+// value IS that atom): coefficients are reduced modulo 2^w and atoms that are themselves wraps / low halves
+// are expanded level by level.  This is exact modular arithmetic on the concrete constants of the code
+// (e.g. q * q^-1 = 1 mod 2^64) and adds no assumption.
+func (l *Lowerer) simpleMod(lf *lin, w uint8) (string, bool) {
+	m := pow2(uint(w))
+	half := pow2(uint(w) - 1)
+	red := func(c *big.Int) *big.Int {
+		x := new(big.Int).Mod(c, m)
+		if x.Cmp(half) > 0 {
+			x.Sub(x, m)
+		}
+		return x
+	}
+	cur := lf
+	for depth := 0; depth < 8; depth++ {
+		r := newLin()
+		for _, n := range cur.order {
+			c := red(cur.terms[n])
+			if c.Sign() != 0 {
+				r.addAtom(n, c)
+			}
+		}
+		r.k = red(cur.k)
+		live := 0
+		var atom string
+		for _, n := range r.order {
+			if r.terms[n].Sign() != 0 {
+				live++
+				atom = n
+			}
+		}
+		if live == 1 && r.k.Sign() == 0 && r.terms[atom].Cmp(bigOne) == 0 {
+			if iv, ok := l.atomIv[atom]; ok && iv[0].Sign() >= 0 && iv[1].Cmp(maxOfW(w)) <= 0 {
+				return atom, true
+			}
+		}
+		next := newLin()
+		next.k.Set(r.k)
+		changed := false
+		for _, n := range r.order {
+			c := r.terms[n]
+			if c.Sign() == 0 {
+				continue
+			}
+			if mf, ok := l.modOf[n]; ok {
+				next.addLin(mf, c)
+				changed = true
+			} else {
+				next.addAtom(n, c)
+			}
+		}
+		if !changed {
+			break
+		}
+		cur = next
+	}
+	return "", false
 }
 
 // split writes ex = H*2^k + L with 0<=L<2^k; returns (H, L).
@@ -772,8 +851,29 @@ func (l *Lowerer) split(ex string, lo, hi *big.Int, k uint) (string, string, *bi
 		l.splits[key] = [2]string{h, lw}
 		return h, lw, hlo, hhi
 	}
+	lf := l.linOf[ex]
+	if lf == nil {
+		lf = newLin()
+		lf.addAtom(ex, bigOne)
+	}
+	if k == 64 && !l.NoModForms {
+		if a, ok := l.simpleMod(lf, 64); ok && a != ex {
+			// the low half is a known in-range value
+			h := l.fresh("hi", "Int")
+			l.asserts = append(l.asserts, fmt.Sprintf("(= %s (+ (* %s %s) %s))", ex, h, m, a))
+			l.asserts = append(l.asserts, fmt.Sprintf("(and (<= %s %s) (<= %s %s))", sInt(hlo), h, h, sInt(hhi)))
+			l.atomIv[h] = [2]*big.Int{hlo, hhi}
+			l.splits[key] = [2]string{h, a}
+			return h, a, hlo, hhi
+		}
+	}
 	h, lw := l.fresh("hi", "Int"), l.fresh("lo", "Int")
 	l.loOf[lw] = splitRec{x: ex, k: k, xlo: lo, xhi: hi}
+	l.atomIv[h] = [2]*big.Int{hlo, hhi}
+	l.atomIv[lw] = [2]*big.Int{bigZero, new(big.Int).Sub(m, bigOne)}
+	if k == 64 {
+		l.modOf[lw] = lf
+	}
 	l.asserts = append(l.asserts, fmt.Sprintf("(= %s (+ (* %s %s) %s))", ex, h, m, lw))
 	l.asserts = append(l.asserts, fmt.Sprintf("(and (<= 0 %s) (< %s %s) (<= %s %s) (<= %s %s))", lw, lw, m, sInt(hlo), h, h, sInt(hhi)))
 	l.splits[key] = [2]string{h, lw}
@@ -821,7 +921,7 @@ func (l *Lowerer) intBV(t *Term) string {
 		x, y := l.T(t.A[0]), l.T(t.A[1])
 		xl, xh := l.iv(t.A[0])
 		yl, yh := l.iv(t.A[1])
-		r, lo, hi := l.wrap("(* "+x+" "+y+")", new(big.Int).Mul(xl, yl), new(big.Int).Mul(xh, yh), t.W)
+		r, lo, hi := l.wrap("(* "+x+" "+y+")", new(big.Int).Mul(xl, yl), new(big.Int).Mul(xh, yh), t.W, nil)
 		l.setiv(t, lo, hi)
 		return r
 	case OShl:
@@ -903,10 +1003,18 @@ func (l *Lowerer) intBV(t *Term) string {
 		lo, hi := new(big.Int).Mul(xl, yl), new(big.Int).Mul(xh, yh)
 		l.setiv(t, lo, hi)
 		if t.A[1].IsConst() {
-			return "(* " + x + " " + y + ")"
+			e := "(* " + x + " " + y + ")"
+			lf := newLin()
+			lf.addAtom(x, t.A[1].ConstBig())
+			l.linOf[e] = lf
+			if _, ok := l.atomIv[x]; !ok {
+				l.atomIv[x] = [2]*big.Int{xl, xh}
+			}
+			return e
 		}
 		// symbolic x symbolic: abstract product (sound over-approximation; specifications refer to the same term)
 		p := l.fresh("P", "Int")
+		l.atomIv[p] = [2]*big.Int{lo, hi}
 		l.asserts = append(l.asserts, fmt.Sprintf("(and (<= %s %s) (<= %s %s))", lo, p, p, hi))
 		// helpful monotonicity facts: P >= x*ylo and P <= x*yhi etc. (linear, sound)
 		l.asserts = append(l.asserts, fmt.Sprintf("(and (>= %s (* %s %s)) (<= %s (* %s %s)) (>= %s (* %s %s)) (<= %s (* %s %s)))", p, x, yl, p, x, yh, p, y, xl, p, y, xh))
